@@ -271,6 +271,7 @@ def run(prop, tier, sd, rep, clauses, modes):
         real_sig_names = set()
 
         def do_slice(decls, sk):
+            pl.trim_gocache()     # sequential point: no build of this process is running
             byid = {d['id']: d for d in decls}
             root = pl.make_scratch(w, decls, 'scratch%d' % sk)
             gen = pl.generate_all(cli, root, decls)
